@@ -393,7 +393,7 @@ fn equal_hour(sn1: &SnapshotFile, sn2: &SnapshotFile) -> bool {
 ///
 /// Whether the minutes of the snapshots are equal
 fn equal_minute(sn1: &SnapshotFile, sn2: &SnapshotFile) -> bool {
-    equal_half_year(sn1, sn2) && sn1.time.minute() == sn2.time.minute()
+    equal_hour(sn1, sn2) && sn1.time.minute() == sn2.time.minute()
 }
 
 impl KeepOptions {
